@@ -96,7 +96,13 @@ def surrogate_cases(draw, kind):
     if kind != "stub":
         hs["losses"][0] = abs(hs["losses"][0]) + 1.0
         hs["losses"][1] = 0.25
-    return {"space": sp, "sampler": s, "history": hs, "preds": preds}
+    # an earlier call on the same sampler object, with another history of the same length (stale-fit detection)
+    n = len(hs["idx"])
+    before = draw(st.one_of(st.none(), gen.history_spec(d, n, max_rows=n, losses="finite")))
+    if before is not None and kind != "stub":
+        before["losses"][0] = abs(before["losses"][0]) + 2.0
+        before["losses"][1] = 0.5
+    return {"space": sp, "sampler": s, "history": hs, "preds": preds, "before": before}
 
 
 def check_surrogate(ctx: Ctx, case):
@@ -139,6 +145,10 @@ def check_surrogate(ctx: Ctx, case):
         sampler.fit, sampler.predict = fit, predict
     try:
         with watchdog(30, f"{kind}.sample"), np.errstate(all="ignore"):
+            if case.get("before"):
+                pts_b, losses_b = gen.build_history(space, case["before"])
+                sampler.sample(space, pts_b, losses_b)
+                rec.clear()
             out = sampler.sample(space, pts, losses)
     except Inconclusive:
         raise
